@@ -154,6 +154,51 @@ def check_nested_pair(fi: int, p0: int, p1: int, p2: int, q0: int, q1: int, q2: 
     return True
 
 
+SITE: dict = {}
+
+
+def _site_setup() -> None:
+    from ..models import setup as msetup
+    from ..models import sa as samodels
+    dj = msetup.django_setup()
+    from odata_query.django.django_q import AstToDjangoQVisitor
+    from odata_query.sqlalchemy.core import AstToSqlAlchemyCoreVisitor
+    from odata_query.sqlalchemy.orm import AstToSqlAlchemyOrmVisitor
+    SITE["vis"] = [lambda: AstToDjangoQVisitor(dj.Item), lambda: AstToSqlAlchemyOrmVisitor(samodels.Item),
+                   lambda: AstToSqlAlchemyCoreVisitor(samodels.Item.__table__)]
+
+
+BAD_FIRST = [I, F, B, D, DT, T, DU, L]      # literal kinds that are not a string (nor a field)
+PATTERNS = ["a", "", "%", "_", "/", "a%", "\\", "it's"]
+
+
+def check_callsite(bi: int, fn: int, kind: int, pat: int, second_bad: bool) -> bool:
+    """the backends' use of the type check for contains / startswith / endswith: a first argument that is a literal of a
+    non-string kind - or a second argument that is - is refused with ArgumentTypeException, whatever the other argument
+    looks like (wildcards included); a well-typed call is accepted."""
+    name = ("contains", "startswith", "endswith")[fn]
+    first = lit(BAD_FIRST[kind % len(BAD_FIRST)]) if not second_bad else ast.Identifier("name")
+    second = ast.String(PATTERNS[pat]) if not second_bad else lit(BAD_FIRST[kind % len(BAD_FIRST)])
+    node = ast.Call(ast.Identifier(name), [first, second])
+    try:
+        SITE["vis"][bi]().visit(node)
+    except exceptions.ArgumentTypeException:
+        return True
+    except exceptions.ODataException:
+        return True          # another refusal by the library is acceptable too
+    return False
+
+
+def check_callsite_ok(bi: int, fn: int, pat: int) -> bool:
+    name = ("contains", "startswith", "endswith")[fn]
+    node = ast.Call(ast.Identifier(name), [ast.Identifier("name"), ast.String(PATTERNS[pat])])
+    try:
+        SITE["vis"][bi]().visit(node)
+    except exceptions.ArgumentTypeException:
+        return False
+    return True
+
+
 EXPECTED_SETS = [(S,), (S, L), (I, F), (B,), (D, DT), (DT, T), (L,), (G,), (DU,)]
 
 
@@ -232,6 +277,14 @@ def main() -> int:
                               f"check_nested_pair({fi}, {p0}, p1, p2, q0, q1, q2, sval)",
                               describe={"function": list(ARG0_FUNCS[fi]), "first argument producer (String)": str(producers(S)[p0])},
                               family="inference-sequence"))
+    _site_setup()
+    for bi, bn in enumerate(("django", "sa_orm", "sa_core")):
+        items.append(Item(f"site_{bn}", "fn: int, kind: int, pat: int, second_bad: bool",
+                          f"0 <= fn < 3 and 0 <= kind < {len(BAD_FIRST)} and 0 <= pat < {len(PATTERNS)}",
+                          f"check_callsite({bi}, fn, kind, pat, second_bad)", describe={"backend": bn, "patterns": PATTERNS},
+                          family="typecheck-call-sites", isolate=True))
+        items.append(Item(f"siteok_{bn}", "fn: int, pat: int", f"0 <= fn < 3 and 0 <= pat < {len(PATTERNS)}",
+                          f"check_callsite_ok({bi}, fn, pat)", describe={"backend": bn}, family="typecheck-call-sites", isolate=True))
     for ti, t in enumerate(TYPES):
         for ei in range(len(EXPECTED_SETS)):
             if quick and (ti + ei) % 2:
@@ -247,7 +300,8 @@ def main() -> int:
                           family="typecheck"))
     for it in items[:4]:
         run.sample({"harness": it.name, "call": it.call, "describe": it.describe})
-    header = "from verif.props.c18 import check_name, check_nested, check_typecheck, check_substr_family, check_nested_pair\n"
+    header = ("from verif.props.c18 import check_name, check_nested, check_typecheck, check_substr_family, check_nested_pair, "
+              "check_callsite, check_callsite_ok\n")
     run_items(run, header, items, per_condition_timeout=60 if quick else 200,
               progress=bool(os.environ.get("VERIF_PROGRESS")))
     return run.finish()
